@@ -13,6 +13,9 @@ NOTES = {
  "C08-b": "missed at first (ASCII names only); caught after listings gained UTF-8 entry and directory names (harness locale C.UTF-8)",
  "C09-b": "missed at first (one request per middleware instance); caught after family `bauthm` (one instance across add() calls and connections, same header replayed)",
  "C13-b": "missed at first (a NUL byte in the read that completes the head was sampled with probability ~1/256 per byte); caught after binary bodies were added",
+ "C18-b": "missed at first (3-digit status codes only); caught after header sets gained status codes of 1, 2, 4 and 5 digits and empty/long reasons",
+ "C19-b": "first run: `no-failing-input-found` (SimTcp cannot lose bytes already handed to it); after family `socknet` (the same cases over a real loopback connection, judged by what the client receives): concrete replay",
+ "C20-b": "missed at first (one connection at a time); caught after family `tls` gained overlapping connections (clients connect first, then act in every order)",
  "C06-b": "caught on the first run, thanks to the refusal styles (silent / own fragment without close) added to model, spec and harness beforehand",
 }
 rows = []
